@@ -586,7 +586,7 @@ func runC08(w *World, r *Report) {
 			})
 		}
 		if n < 2 {
-			undecidedf("C08.source-behind-the-copies-only: only %d accesses of parentStreamReader.sr found", n)
+			r.Deferred = append(r.Deferred, fmt.Sprintf("C08.source-behind-the-copies-only: only %d accesses of parentStreamReader.sr found", n))
 		}
 	}
 	r.Rule("C08.copies-share-the-converted-items", "the copies of a converted reader share the CONVERTED items: nothing on the way of StreamReader.Copy builds a convert reader, so a convert function runs once per item (inside the shared cell) whatever the number of copies — a stateful convert (numbering, de-duplicating, dropping by history) would otherwise show each copy a different sequence, and its panic would escape from one copy's Recv instead of landing in the cell", 1)
